@@ -34,6 +34,21 @@ theorem unionPick_none {w : World} {cs : List Nat} {hn : Bool} {o : Obj}
       · cases h
       · split at h <;> cases h
 
+/-- union members are attrs classes / dataclasses: never NamedTuple classes -/
+theorem unionMembersOk_notNT {w : World} {cs : List Nat} (h : unionMembersOk w cs = true) {c : Nat} (hc : c ∈ cs) :
+    w.isNT c = false := by
+  unfold unionMembersOk at h
+  rw [List.all_eq_true] at h
+  have := h c hc
+  unfold World.isNT
+  unfold World.cls? at this
+  cases hk : w.classes[c]? with
+  | none => rfl
+  | some k =>
+    rw [hk] at this
+    simp only [Bool.and_eq_true, bne_iff_ne, ne_eq] at this
+    simp [this.2]
+
 /-- the payload `None` is never handed to a member class -/
 theorem unionPick_none_payload {w : World} {cs : List Nat} {hn : Bool} {m : Nat} :
     unionPick w cs hn Obj.none ≠ Outcome.ok m := by
